@@ -98,6 +98,18 @@ pub fn eval(r: &Replay) -> EvalOut {
 // ------------------------------------------------------------------------------------------------
 // worker
 
+/// Order-sensitive chain over the event-log digests of every execution of the current seed
+/// (printed per seed when VERIF_DIGESTS is set: the determinism double-run diffs these lines).
+pub static RUN_CHAIN: std::sync::atomic::AtomicU64 = std::sync::atomic::AtomicU64::new(0);
+
+pub fn chain(d: u64) {
+    if std::env::var("VERIF_DIGESTS").map(|v| v == "2").unwrap_or(false) {
+        println!("RUNDIGEST {:016x}", d);
+    }
+    let c = RUN_CHAIN.load(std::sync::atomic::Ordering::Relaxed);
+    RUN_CHAIN.store(crate::res::mix(c, d), std::sync::atomic::Ordering::Relaxed);
+}
+
 /// Deadline of the current worker (ms since the epoch); long scenarios stop between runs.
 pub static DEADLINE_MS: std::sync::atomic::AtomicU64 = std::sync::atomic::AtomicU64::new(u64::MAX);
 
@@ -144,11 +156,13 @@ pub fn cmd_worker(a: &[String]) {
     let mut k = startk;
     let out = std::io::stdout();
     let mut reported: BTreeMap<String, u32> = BTreeMap::new();
+    let print_digests = std::env::var("VERIF_DIGESTS").is_ok();
     while k < maxk && now_ms() < deadline {
         let seed = base.wrapping_add(offset).wrapping_add(k.wrapping_mul(stride));
         CUR_SEED.store(seed, std::sync::atomic::Ordering::SeqCst);
         CUR_K.store(k, std::sync::atomic::Ordering::SeqCst);
         let index = offset + k * stride;
+        RUN_CHAIN.store(0, std::sync::atomic::Ordering::Relaxed);
         let r = std::panic::catch_unwind(std::panic::AssertUnwindSafe(|| explore(&prop, seed, index, thorough, &mut st)));
         match r {
             Ok(None) => break,
@@ -170,6 +184,10 @@ pub fn cmd_worker(a: &[String]) {
                 let _ = writeln!(o, "HARNESS {}", json!({"seed": seed, "k": k, "msg": crate::util::payload_string(&p)}));
                 let _ = o.flush();
             }
+        }
+        if print_digests {
+            let mut o = out.lock();
+            let _ = writeln!(o, "DIGEST {} {:016x}", seed, RUN_CHAIN.load(std::sync::atomic::Ordering::Relaxed));
         }
         k += 1;
         if k % 16 == 0 {
